@@ -182,3 +182,27 @@ Proof.
   destruct Hx as [<-|[<-|[<-|[]]]]; simpl in Hin;
     repeat (destruct Hin as [Hin|Hin]; [inversion Hin; subst; simpl; tauto|]); destruct Hin.
 Qed.
+
+(** de-duplication with orbit information: something is dropped, the order is kept; an uncovered host node is the
+    ValueError path ([None]); without orbit information the list is returned unchanged *)
+Definition ex_two : list mapping := [[(1, 7); (2, 8)]; [(1, 8); (2, 7)]; [(1, 7); (2, 9)]]%N.
+Example ex_dedup_anchor :
+  dedup_anchor (fun m : mapping => m) ex_two (Some [[1; 2]]%N) [] None = Some [[(1, 7); (2, 8)]; [(1, 7); (2, 9)]]%N /\
+  dedup_anchor (fun m : mapping => m) ex_two None [] (Some [[7; 8]]%N) = None /\
+  dedup_anchor (fun m : mapping => m) ex_two None [] None = Some ex_two.
+Proof. repeat split; vm_compute; reflexivity. Qed.
+
+(** a result function satisfying both premises of C11_prune_same_results for every rule centre: the set of host
+    nodes a match covers; on [ex_raw] the pruned-away match has the value of the kept one *)
+Definition host_set (m : mapping) : list N := canonN (map snd m).
+Example ex_same_results :
+  (forall m m', (forall ph, In ph m <-> In ph m') -> host_set m = host_set m') /\
+  (forall s m, host_set (act s m) = host_set m) /\
+  map host_set ex_raw = [[7; 8; 9]; [7; 8; 9]; [6; 7; 8]]%N /\
+  map host_set (prune (fun m : mapping => m) ex_path ex_raw) = [[7; 8; 9]; [6; 7; 8]]%N.
+Proof.
+  split; [|split; [|split; vm_compute; reflexivity]].
+  - intros m m' H. unfold host_set. apply canonN_ext. intros y. rewrite !in_map_iff.
+    split; intros (ph & E & Hin); exists ph; (split; [exact E | apply H; exact Hin]).
+  - intros s m. unfold host_set, act. rewrite map_map. reflexivity.
+Qed.
